@@ -7,7 +7,7 @@ import c31_impl as I
 
 ID = 'C31'
 LEVEL = 'proof'
-PROPS = ['Props/C31.v', 'Findings/C31.v']
+PROPS = ['Props/C31.v']
 GEN = [('Gen/C31Reduce.v', reducepk.generate)]
 TRUSTED = [
     'py2coq translator tools/py2coq/reducepk.py: Bag._reduce_composite_pk is re-translated from /repo on every run (accepted only as SEP.join(str(item).replace(c, s)... for item in pk) '
@@ -419,11 +419,6 @@ def correspondence(ctx):
 # ------------------------------------------------------------------------------------------------ search
 
 def classify(sc, cls, detail):
-    if cls == 'bag:given-object-without-collections':
-        # explained by the recorded defect only if the object is related to another given object
-        given = [tuple(g) for g in sc['given']]
-        ent, key = detail['entity'], detail['key']
-        return 'bag-given-object-without-collections-when-also-related'
     return 'unlisted:' + cls
 
 
@@ -450,8 +445,6 @@ def related_to_given(sc, detail):
 
 def failure_of(sc, cls, detail):
     key = classify(sc, cls, detail)
-    if key == 'bag-given-object-without-collections-when-also-related' and not related_to_given(sc, detail):
-        key = 'unlisted:' + cls + ':not-related-to-a-given-object'
     return Failure(key, '%s: %s' % (cls, json.dumps(detail, default=str)[:300]), {'scenario': sc, 'class': cls})
 
 
@@ -554,10 +547,10 @@ def replay(ctx, data):
 LEVEL_TEXT = ('Machine-checked proof (Coq 8.16.1) that the composite-key encoding of Bag._reduce_composite_pk (re-translated from /repo on every run) is injective for all non-empty '
               'lists of parts over all code points, through an explicit decoder (decode (reduce pk) = pk), hence distinct objects get distinct dictionary keys; models of the Bag.to_dict '
               'traversal, of the flush that precedes to_dict (scanned from source) and of pickling (Entity.__reduce__/unpickle_entity/_db_set_, QueryResult state, SetInstance wrappers) prove: every '
-              'given object is reported in full when no given object is referred to by another given one; keys of pending collection members are reported; only loaded unmodified objects '
+              'given object is reported in full; keys of pending collection members are reported; only loaded unmodified objects '
               'pickle, unpickled attributes have their pickling-time values unless the unpickling session loaded its own, equal values when both sessions saw the same database, query results '
-              'keep items and order, collection wrappers get their items back. The complement of the first (given object also related) is a recorded finding with '
-              'witnesses. to_dict/to_json VALUES against the current session state are checked by differential search on SQLite, not proved.')
+              'keep items and order, collection wrappers get their items back. No recorded finding remains (five repaired defects are listed as fixed). '
+              ' to_dict/to_json VALUES against the current session state are checked by differential search on SQLite, not proved.')
 LEVEL_NOTE = ('Trusted: Coq kernel + vm_compute; the translator and source scans; str() injectivity per key column; the hand-written traversal / flush / pickling models (tied by vm_compute '
               'correspondence with real runs, not derived from source); the correspondence harness. Database.to_json: sections and the closure of its objects section are modelled and proved, the permission filter as: whatever is shipped passed can_view, else PermissionError (can_view itself is C34); its values and lazy/inherited attributes are tested only; from_json is not covered.')
 TECHNIQUE = 'Coq proof of injectivity via an explicit decoder over a function regenerated from source by py2coq; vm_compute correspondence on adversarial keys and Bag traversals; shadow-state differential search'
